@@ -125,8 +125,8 @@ class Main(Suite):
     name = "main"
     go_cmd = "c17"
     coq_imports = "From GoGit Require Import Spec.AStore Model.StorageAPI."
-    quick_n = 400
-    thorough_n = 6000
+    quick_n = 300
+    thorough_n = 2000
     coq_chunk = 200
 
     def backends(self, rng):
@@ -138,8 +138,21 @@ class Main(Suite):
             bs.append(kind + (":" + o if o else ""))
         return bs
 
-    def gen(self, rng, n, tier):
+    def exhaustive(self, rng):
+        """small scope, thorough tier: every sequence of <= 3 calls over two names and two objects"""
+        import itertools
+        alphabet = [["setref", 0, ["h", 0]], ["setref", 0, ["h", 1]], ["setref", 1, ["s", 0]], ["cas", 0, ["h", 1], 0, ["h", 0]],
+                    ["getref", 0], ["iterrefs"], ["delref", 0], ["packrefs"], ["reopen"], ["setobj", 0], ["addpack", [0, 1]],
+                    ["iterobjs", 0], ["hasobj", 1]]
         cases = []
+        for k in (1, 2, 3):
+            for seq in itertools.product(alphabet, repeat=k):
+                cases.append({"bucket": "exhaustive-%d" % k, "backends": self.backends(rng)[:3], "names": NAMES, "objs": OBJS,
+                              "ops": [list(o) for o in seq] + [["iterrefs"], ["iterobjs", 0]]})
+        return cases
+
+    def gen(self, rng, n, tier):
+        cases = self.exhaustive(rng) if tier == "thorough" else []
         buckets = [(4, "refs"), (3, "objs"), (2, "misc"), (2, "logs"), (4, "mixed"), (3, "targeted")]
         for _ in range(n):
             b = pick_weighted(rng, buckets)
@@ -311,12 +324,22 @@ class Main(Suite):
         return classes[0]
 
     def extra(self, ctx, cases, impl, model):
-        kinds, bes = {}, {}
+        kinds, bes, classes = {}, {}, {}
         for c in cases:
             for o in c["ops"]:
                 kinds[o[0]] = kinds.get(o[0], 0) + 1
             for b in c["backends"]:
                 bes[b] = bes.get(b, 0) + 1
+            r = impl.get(c["id"])
+            if r and not r.get("panic"):
+                try:
+                    got = parse_out(r["out"])
+                    for bi, label in enumerate(["memory", "filesystem"][:len(got)]):
+                        for o, g in zip(c["ops"], got[bi][0]):
+                            k = label + ":" + o[0] + ":" + (g[1] if g[:1] == ["err"] else "ok")
+                            classes[k] = classes.get(k, 0) + 1
+                except Exception:
+                    pass
         # the python abstract store against Spec/AStore.v (evaluated in Coq) on a sample
         sample = cases[:12] + cases[12::max(1, len(cases) // 40)]
         outs = ctx.coq_eval(self.coq_imports, [self.spec_expr(c) for c in sample], chunk=self.coq_chunk)
@@ -325,7 +348,7 @@ class Main(Suite):
             if o is None or parse_out(o) != self.spec(c):
                 bad += 1
                 ctx.notes.append("spec_mismatch: python abstract store vs Spec/AStore.v on case %s" % c["id"])
-        return {"calls_by_kind": kinds, "backend_runs": bes, "spec_crosscheck_cases": len(sample), "spec_mismatches": bad}
+        return {"calls_by_kind": kinds, "answers_by_backend_call_and_class": classes, "backend_runs": bes, "spec_crosscheck_cases": len(sample), "spec_mismatches": bad}
 
 
 SUITES = [Main()]
